@@ -103,6 +103,16 @@ func (ss *Session) Assert(t *Term) {
 
 func (ss *Session) Check() Result { return ss.S.Check() }
 
+// CheckAssuming decides pc ∧ t without opening a scope: t is guarded by a fresh activation literal
+// and checked with check-sat-assuming, so the solver keeps what it learned about pc.
+func (ss *Session) CheckAssuming(t *Term) Result {
+	act := "act" + strconv.Itoa(ss.n)
+	ss.n++
+	ss.S.send("(declare-fun " + act + " () Bool)")
+	ss.S.send("(assert (=> " + act + " " + ss.ref(t) + "))")
+	return ss.S.CheckCmd("(check-sat-assuming (" + act + "))")
+}
+
 func (ss *Session) lookup(t *Term) (string, bool) {
 	for i := len(ss.defs) - 1; i >= 0; i-- {
 		if n, ok := ss.defs[i][t]; ok {
@@ -197,6 +207,14 @@ func (ss *Session) render(t *Term) string {
 		return "(* " + ss.ref(t.Args[0]) + " " + ss.ref(t.Args[1]) + ")"
 	case OpZext, OpSext, OpExtract:
 		return ss.ref(t.Args[0])
+	case OpConcat:
+		part := func(x *Term) string {
+			if x.IsConst() {
+				return new(big.Int).SetUint64(x.Val).String()
+			}
+			return ss.ref(x)
+		}
+		return "(+ (* " + part(t.Args[0]) + " " + pow2(t.Args[1].W).String() + ") " + part(t.Args[1]) + ")"
 	}
 	panic("smt: term not expressible in the integer view: " + opNames[t.Op])
 }
